@@ -10,6 +10,7 @@ import (
 	"context"
 	"errors"
 	"fmt"
+	"io"
 	"math/rand/v2"
 	"sync"
 	"sync/atomic"
@@ -90,9 +91,10 @@ func TestC15(t *testing.T) {
 			concCase(t, r, i)
 		}
 		lookupRace(t, r)
+		interfaceTyped(r)
 	}
 	r.Require("gets_after_install", "gets_without_install", "gets_after_many_installs", "builder_failures", "closes_checked", "updater_created_during_install",
-		"installs_with_failing_cache", "concurrent_gets", "updaters_from_racing_lookups")
+		"installs_with_failing_cache", "concurrent_gets", "updaters_from_racing_lookups", "interface_typed_updater_gets")
 	r.Rule("sequential seeded histories over 2 secrets and up to 5 updaters: installs (0..4 between Gets, sometimes with a failing cache write), updater creation (also while an install lands during its initial build), scripted builder failures, Gets; exact expectations per Get on (builder invoked?, with which bytes, value returned, Err, Close counts). Concurrent runs: 8 Get goroutines vs an installer, judged by call/return stamps. Distinct = (event, installs since last Get capped at 3, builder outcome)")
 }
 
@@ -490,4 +492,66 @@ func lookupRace(t *testing.T, r *evid.Run) {
 		}
 	}
 	r.Distinct("racing-lookups")
+}
+
+// closerValue is an interface type: Updater[closerValue] must close replaced values just like Updater[*val].
+type closerValue interface {
+	Close() error
+	From() string
+}
+
+func (v *val) From() string { return v.from }
+
+// interfaceTyped: the close-exactly-once rule does not depend on T being a concrete type.
+func interfaceTyped(r *evid.Run) {
+	for _, kind := range []string{"interface", "io.Closer"} {
+		svc := fakesvc.New()
+		svc.Set("s", 1, []byte("s#1"))
+		st, err := setec.NewStore(context.Background(), setec.StoreConfig{Client: svc, Secrets: []string{"s"}, PollInterval: -1, Logf: func(string, ...any) {}})
+		if err != nil {
+			r.Violation("newstore", -1, err.Error(), nil)
+			return
+		}
+		b := &builder{}
+		var get func() *val
+		if kind == "interface" {
+			u, err := setec.NewUpdater(context.Background(), st, "s", func(d []byte) (closerValue, error) { v, e := b.build(d); return v, e })
+			if err != nil {
+				r.Violation("newupdater-fails", -1, err.Error(), nil)
+				return
+			}
+			get = func() *val { return u.Get().(*val) }
+		} else {
+			u, err := setec.NewUpdater(context.Background(), st, "s", func(d []byte) (io.Closer, error) { v, e := b.build(d); return v, e })
+			if err != nil {
+				r.Violation("newupdater-fails", -1, err.Error(), nil)
+				return
+			}
+			get = func() *val { return u.Get().(*val) }
+		}
+		var cur *val
+		for i := 2; i <= 6; i++ {
+			svc.Set("s", uint32(i), []byte(fmt.Sprintf("s#%d", i)))
+			st.Refresh(context.Background())
+			cur = get()
+			r.Count("interface_typed_updater_gets", 1)
+			r.Eval(1)
+			if cur.from != fmt.Sprintf("s#%d", i) {
+				r.Violation("stale-after-install", -1, fmt.Sprintf("Updater[%s]: Get returned a value built from %q after s#%d was installed", kind, cur.from, i), nil)
+				return
+			}
+		}
+		b.mu.Lock()
+		for _, v := range b.made {
+			c := v.closed.Load()
+			if v == cur && c != 0 {
+				r.Violation("current-value-closed", -1, fmt.Sprintf("Updater[%s]: the current value was closed", kind), nil)
+			} else if v != cur && c != 1 {
+				r.Violation("replaced-value-close-count", -1, fmt.Sprintf("Updater[%s]: a replaced value (built from %q) that implements io.Closer was closed %d time(s), want exactly 1", kind, v.from, c), nil)
+			}
+		}
+		b.mu.Unlock()
+		st.Close()
+		r.Distinct("updater with T = " + kind)
+	}
 }
